@@ -128,6 +128,9 @@ func Sparse6Decode(s string) (*SparseGraph, error) {
 	}
 
 	//Check the initial byte and remove it.
+	if len(s) == 0 {
+		return &SparseGraph{}, errors.New("String too short - missing :")
+	}
 	if s[0] != 58 {
 		return &SparseGraph{}, fmt.Errorf("Incorrect first character. Expected: : Found: %v", s[0])
 	}
@@ -143,13 +146,16 @@ func Sparse6Decode(s string) (*SparseGraph, error) {
 	var n uint64
 	i := 0
 
+	if len(s) == 0 {
+		return &SparseGraph{}, errors.New("String too short - unable to decode n")
+	}
+
 	if s[0] != 126 {
 		n = uint64(s[0] - 63)
 		i = 1
+	} else if len(s) < 4 {
+		return &SparseGraph{}, errors.New("String too short - unable to decode n")
 	} else if s[1] != 126 {
-		if len(s) < 4 {
-			return &SparseGraph{}, errors.New("String too short - unable to decode n")
-		}
 		n = (uint64(s[1]-63) << 12) + (uint64(s[2]-63) << 6) + uint64(s[3]-63)
 		i = 4
 	} else {
@@ -162,41 +168,39 @@ func Sparse6Decode(s string) (*SparseGraph, error) {
 
 	g := NewSparse(int(n), nil)
 	v := 0
-	k := 64 - bits.LeadingZeros64(n-1)
-	var bitIndex uint
-	for {
-		b := ((s[i] - 63) >> (5 - bitIndex)) & 1
+	//The number of bits needed to represent n - 1.
+	k := 0
+	if n > 1 {
+		k = 64 - bits.LeadingZeros64(n-1)
+	}
+
+	//Read the pairs b[i] x[i] where b[i] is a single bit and x[i] is k bits. An incomplete pair at the end is padding.
+	bitIndex := 6 * i
+	numberOfBits := 6 * len(s)
+	nextBit := func() int {
+		b := int((s[bitIndex/6]-63)>>uint(5-bitIndex%6)) & 1
 		bitIndex++
-		if bitIndex == 6 {
-			bitIndex = 0
-			i++
-			if i >= len(s) {
-				return g, nil
-			}
-		}
-		if b == 1 {
+		return b
+	}
+	for bitIndex+1+k <= numberOfBits {
+		if nextBit() == 1 {
 			v++
 		}
 		x := 0
 		for j := 0; j < k; j++ {
-			if ((s[i]-63)>>(5-bitIndex))&1 == 1 {
-				x |= 1 << uint(k-j-1)
-			}
-			bitIndex++
-			if bitIndex == 6 {
-				bitIndex = 0
-				i++
-				if i >= len(s) {
-					return g, nil
-				}
-			}
+			x = (x << 1) | nextBit()
 		}
 		if x > v {
 			v = x
-		} else {
+		} else if v < int(n) {
 			g.AddEdge(v, x)
 		}
+		if v >= int(n) {
+			//There are no more vertices so the rest of the string cannot contain any edges.
+			break
+		}
 	}
+	return g, nil
 }
 
 //Sparse6Encode returns an encoding of g. Note that the encoding is not unique but this should align with the format used by showg, geng, nauty etc.
